@@ -36,9 +36,13 @@ def summarize(results, outcome: Outcome, prop=PROP, dedupe=True):
             st = per_type.setdefault(r.type, {'acc': 0, 'rej': 0})
             st['acc'] += r.accept
             st['rej'] += r.reject
+            outcome.total += 1
             for inc in r.inconclusive:
                 cov['inconclusive'] += 1
-                outcome.inconclusive_item(f'{r.desc}/{r.type} {r.direction}: {inc}')
+                if 'budget exhausted' in inc:
+                    outcome.undecided_item(f'{r.desc}/{r.type} {r.direction}: {inc}')
+                else:
+                    outcome.inconclusive_item(f'{r.desc}/{r.type} {r.direction}: {inc}')
             if r.direction == 'parse' and r.accept == 0 and not r.findings and not r.inconclusive:
                 cov['vacuous_types'].append(f'{r.desc}/{r.type}')
                 outcome.inconclusive_item(f'{r.desc}/{r.type}: no accepting path within |b|<={r.bound} (vacuous)')
